@@ -188,6 +188,9 @@ def exec_op(rt, wl, labs, op, buffers=None):
         labs[op["lab"]].min_volume = dec(op["min"])
         labs[op["lab"]].max_volume = dec(op["max"])
         return None
+    if k == "save_main":
+        # an explicit save to the worklist's own path in the middle of the with block (a checkpoint on disk)
+        return wl.save(wl.filepath)
     if k == "set_wl_max":
         # `max_volume` is a public attribute of the worklist: a script may change it after construction (other tips)
         wl.max_volume = dec(op["value"])
